@@ -321,11 +321,15 @@ def addResponses (cwd : Str) : Buckets → List PluginResp → Except GErr Bucke
     | .error e => .error e
     | .ok bs' => addResponses cwd bs' ps
 
-/-- The duplicate key as coded: `filepath.Join(out, name)` on the out directory as configured.
-    Two spellings of one directory ("gen", "./x/../gen", "$PWD/gen") give different keys
-    although the response writer (`filepath.Abs`) merges them into one bucket — see
-    `BufProofs.C17.duplicate_alias_counterexample`. -/
-def dupKey (out name : Str) : Str := join [out, name]
+/-- The duplicate key BEFORE fix (kept for the recorded finding): `filepath.Join(out, name)` on
+    the out directory as configured.  Two spellings of one directory ("gen", "./x/../gen",
+    "$PWD/gen") give different keys although the response writer (`filepath.Abs`) merges them
+    into one bucket — see `BufProofs.C17.duplicate_alias_counterexample`. -/
+def dupKeyOld (out name : Str) : Str := join [out, name]
+
+/-- The duplicate key as coded (after the fix): `filepath.Abs(filepath.Join(out, name))` — the
+    place the file will be written to. -/
+def dupKey (cwd out name : Str) : Str := absPath cwd (join [out, name])
 
 /-- `generateCode` after the plugins ran: `validateResponses`, then every response applied in
     configuration order; only when all succeeded are the buckets flushed. -/
@@ -335,7 +339,11 @@ def runResponsesWith (key : Str → Str → Str) (cwd : Str) (ps : List PluginRe
   | .ok _ => addResponses cwd [] ps
 
 def runResponses (cwd : Str) (ps : List PluginResp) : Except GErr Buckets :=
-  runResponsesWith dupKey cwd ps
+  runResponsesWith (dupKey cwd) cwd ps
+
+/-- The behaviour before the fix. -/
+def runResponsesOld (cwd : Str) (ps : List PluginResp) : Except GErr Buckets :=
+  runResponsesWith dupKeyOld cwd ps
 
 /-- The files the flush writes: (absolute out directory, bucket key, content). -/
 def flushed (bs : Buckets) : List (Str × Str × Content) :=
